@@ -191,7 +191,13 @@ func registryCheck(cr *checkRun, regName, label string, fulls []string, safetyOn
 		}
 		for _, o := range rep.Obls {
 			if o.Cover {
-				if !safetyOnly && !o.Soft {
+				if !safetyOnly && (!o.Soft || strings.Contains(o.Name, "#cover@ret")) {
+					all = append(all, o) // return-reachability covers are soft; they are solved so that a canary can be read against them
+				}
+				continue
+			}
+			if o.Kind == "canary" {
+				if !safetyOnly {
 					all = append(all, o)
 				}
 				continue
@@ -238,6 +244,12 @@ func registryCheck(cr *checkRun, regName, label string, fulls []string, safetyOn
 				cr.viol = append(cr.viol, violation{Obligation: o.Name, Kind: "vacuity", Detail: "cover not satisfiable (" + o.Res.Status + ")"})
 			} else if !o.OK() {
 				cr.undecided = append(cr.undecided, "vacuity guard undecided ("+o.Res.Status+"): "+o.Name)
+			}
+			continue
+		}
+		if o.Kind == "canary" {
+			if !o.OK() && !deadReturn(all, o) {
+				cr.viol = append(cr.viol, violation{Obligation: o.Name, Kind: "vacuity", Detail: "`false` is provable at this return: the assumptions on this path contradict each other (every obligation after the contradiction is proved for free)"})
 			}
 			continue
 		}
